@@ -91,3 +91,39 @@ func VerifSaveUserAPI() {
 	symapi.Assert(u.ValidatePermission("/b/x", auth.PullRight) == wantPull, "pull-right-as-last-saved-through-the-api")
 	symapi.Reach("end")
 }
+
+// VerifRouteAPI (C17 / C18): the route management API addresses exactly the pattern it is
+// given: with any subset of an exact route and the directory route of the same name in the
+// table, DELETE of one pattern (repeated - clients retry) removes that pattern only, and
+// lookups afterwards resolve against what is left.
+func VerifRouteAPI() {
+	auth.Save(&auth.User{Name: "root", Password: "x", Admin: true}, true)
+	pats := []string{"/live", "/live/", "/live/cam"}
+	have := make([]bool, len(pats))
+	for i, p := range pats {
+		have[i] = symapi.Bool("have" + string(rune('0'+i)))
+		if have[i] {
+			route.Save(&route.Route{Pattern: p, URL: "rtsp://h" + p})
+		}
+	}
+	svc := &Service{tokens: new(auth.TokenManager)}
+	mux := http.NewServeMux()
+	svc.initApis(mux)
+	target := symapi.Choose("target", len(pats))
+	times := 1 + symapi.Choose("retries", 2)
+	for k := 0; k < times; k++ {
+		r := &http.Request{Method: "DELETE", URL: &url.URL{Path: "/api/v1/routes" + pats[target]}, Header: http.Header{}}
+		r.URL.RawQuery = "token=" + svc.tokens.NewToken("root").AToken
+		mux.ServeHTTP(&verifRW{}, r)
+	}
+	for i, p := range pats {
+		want := have[i] && i != target
+		symapi.Assert((route.Get(p) != nil) == want, "delete-removes-exactly-the-addressed-pattern")
+	}
+	// resolution against what is left: "/live" resolves through the exact route only
+	m := route.Match("/live")
+	if have[0] && target != 0 {
+		symapi.Assert(m != nil && m.URL == "rtsp://h/live", "exact-route-still-resolves-after-deleting-its-directory-namesake")
+	}
+	symapi.Reach("end")
+}
